@@ -163,20 +163,28 @@ class SymNP(types.ModuleType):
             return aa if cc else bb
         return np.frompyfunc(f, 3, 1)(carr, a, b)
 
-    def argmax(self, a, *k, **kw):
+    def argmax(self, a, axis=None, *k, **kw):
         a = np.asarray(a)
         if a.dtype != object:
-            return np.argmax(a, *k, **kw)
+            return np.argmax(a, axis, *k, **kw)
+        if a.ndim > 1:
+            if axis is None:
+                return self.argmax(a.ravel())
+            return np.apply_along_axis(lambda v: self.argmax(v), axis, a).astype(int)
         best = 0
         for i in range(1, len(a)):
             if a[i] > a[best]:      # forks; first maximum wins, as numpy
                 best = i
         return best
 
-    def argmin(self, a, *k, **kw):
+    def argmin(self, a, axis=None, *k, **kw):
         a = np.asarray(a)
         if a.dtype != object:
-            return np.argmin(a, *k, **kw)
+            return np.argmin(a, axis, *k, **kw)
+        if a.ndim > 1:
+            if axis is None:
+                return self.argmin(a.ravel())
+            return np.apply_along_axis(lambda v: self.argmin(v), axis, a).astype(int)
         best = 0
         for i in range(1, len(a)):
             if a[i] < a[best]:
